@@ -103,7 +103,26 @@ def gen_cases(ctx):
         m = rng.choice([1, 1, 2, 2, 0, 3])
         nbad = rng.choice([0, 0, 0, m])
         cases.append(sched_case(reqs, m, random_merge(rng, thread_actions(reqs, m)), nbad))
-    # the mutex model itself against the real sync.RWMutex: random scripts of lock calls
+    # the mutex model itself against the real sync.RWMutex: crafted wake-up orders, then random scripts of lock calls
+    def mo(t, op):
+        return {"t": t, "op": op}
+    crafted = [
+        # writer holds; a writer queues, then a reader queues; on Unlock Go admits the reader first
+        [mo(0, "Lock"), mo(1, "Lock"), mo(2, "RLock"), mo(0, "Unlock"), mo(2, "RUnlock"), mo(1, "Unlock")],
+        [mo(0, "Lock"), mo(2, "RLock"), mo(1, "Lock"), mo(0, "Unlock"), mo(2, "RUnlock"), mo(1, "Unlock")],
+        [mo(0, "Lock"), mo(1, "Lock"), mo(2, "RLock"), mo(3, "RLock"), mo(0, "Unlock"), mo(2, "RUnlock"), mo(3, "RUnlock"), mo(1, "Unlock")],
+        # two queued writers: first come first served
+        [mo(0, "Lock"), mo(1, "Lock"), mo(2, "Lock"), mo(0, "Unlock"), mo(1, "Unlock"), mo(2, "Unlock")],
+        [mo(0, "Lock"), mo(2, "Lock"), mo(1, "Lock"), mo(0, "Unlock"), mo(2, "Unlock"), mo(1, "Unlock")],
+        # reader holds, writer pending, new reader queues; the recursive read lock of the old code
+        [mo(0, "RLock"), mo(1, "Lock"), mo(2, "RLock"), mo(0, "RUnlock"), mo(1, "Unlock"), mo(2, "RUnlock")],
+        [mo(0, "RLock"), mo(1, "Lock"), mo(0, "RLock"), mo(2, "RLock")],
+        [mo(0, "RLock"), mo(0, "RLock"), mo(1, "Lock"), mo(0, "RUnlock"), mo(0, "RUnlock"), mo(1, "Unlock")],
+        # upgrade attempt: Lock while holding the read lock
+        [mo(0, "RLock"), mo(0, "Lock"), mo(1, "RLock")],
+    ]
+    for ops in crafted:
+        cases.append({"kind": "rwm", "n": 4, "mops": ops, "reqs": []})
     for _ in range(150 if quick else 1500):
         n = rng.choice([2, 3, 3, 4])
         ops = []
